@@ -77,9 +77,9 @@ def scan_problem(d):
     if not len(boxes) == len(offsets) == len(lboxes):
         return "lengths differ: boxes=%d offsets=%d layers=%d" % (
             len(boxes), len(offsets), len(lboxes))
-    if layers._dom != dom:
+    if not same_type(layers._dom, dom):
         return "layers.dom != dom"
-    if layers._cod != cod:
+    if not same_type(layers._cod, cod):
         return "layers.cod != cod"
     scan = _objs(dom)
     for k in range(len(boxes)):
@@ -111,16 +111,25 @@ def scan_problem(d):
     return None
 
 
+def same_type(a, b):
+    """Type equality as lists of objects where both are monoidal types (a slash
+    type is not == to the one-object Ty that wraps it, see DESIGN 13.2 on D8),
+    plain == for categorical objects."""
+    if hasattr(a, "objects") and hasattr(b, "objects"):
+        return list(a.objects) == list(b.objects)
+    return a == b
+
+
 def arrow_problem(a):
     """cat.Arrow built with _scan=False: boxes must compose from dom to cod."""
     scan = a._dom
     for k, box in enumerate(a._boxes):
         if box is a:
             return None if (len(a._boxes) == 1) else "box contains itself"
-        if box.dom != scan:
+        if not same_type(box.dom, scan):
             return "arrow box %d does not compose" % k
         scan = box.cod
-    if scan != a._cod:
+    if not same_type(scan, a._cod):
         return "arrow ends on %s, not on cod %s" % (scan, a._cod)
     return None
 
